@@ -206,9 +206,17 @@ def code_gate(run):
             + ' '.join(l for l in out.split('\n') if 'error' in l.lower())[:300]]
 
 
+def asdict_gate(run):
+    from props import gen_gate
+    return gen_gate(run, 'translator_asdict', 'gen_asdict', 'table',
+                    'Gen.asDictTable = Droop.asDictTable by rfl; the JSON model (lean/DroopModel/Json.lean jsonCand) emits the keys of that table',
+                    'Candidate.as_dict of droop/candidate.py, extracted, is no longer the table the JSON model is driven by')
+
+
 @prop('C18')
 def C18(run):
-    count_property(run, dict(rules=ALL, keys=['C18'], proj=proj_C18, quick=4000, thorough=100000, extra_gate=code_gate))
+    count_property(run, dict(rules=ALL, keys=['C18'], proj=proj_C18, quick=4000, thorough=100000,
+                             extra_gate=lambda run: code_gate(run) + asdict_gate(run)))
     rng = rng_for(run, 'render')
     cases = campaign.make_cases(rng, budget(run, 3000, 80000), ALL)
     items = []
